@@ -473,8 +473,15 @@ def step (s : DState) (line : String) : DState × String :=
     match hres, parseREvs rd, parseWEvs wr with
     | some hres, some rd, some wr =>
       let log := serve s.cfg s.ms.dict.lookup hres rd wr
-      plain s ("calls=[" ++ String.intercalate ";" (log.calls.map Msg.dump) ++ "] written=" ++ hexOrDash log.written ++
-        " end=done")
+      -- spec column: the RFC encodings of the handler's answers, in script order, up to the first handler failure or
+      -- the first answer the wire cannot carry - whatever is written must be a prefix of this
+      let specW : Bytes := (hres.foldl (fun (acc : Bytes × Bool) h =>
+        if acc.2 then acc else
+        match h with
+        | .ok a => if a.repB then (acc.1 ++ Spec.encode a.abs, false) else (acc.1, true)
+        | .err => (acc.1, true)) ([], false)).1
+      (s, "calls=[" ++ String.intercalate ";" (log.calls.map Msg.dump) ++ "] written=" ++ hexOrDash log.written ++
+        " end=done | " ++ hexOrDash specW ++ " | -")
     | _, _, _ => plain s "bad-op"
   | ["fx", t, h] =>
     match fxTy t, unhex? h with
